@@ -41,8 +41,10 @@ const (
 	// leaveGraceMs: a plugin that leaves sooner than this after answering may be taken for one
 	// that disconnected during the request (see the oracle)
 	leaveGraceMs = 5
-	mainTag      = "main"
-	followTag    = "follow"
+	// stopBound: how long Adaptation.Stop() may take at the end of a case (typical: < 1 ms)
+	stopBound = 3 * time.Second
+	mainTag   = "main"
+	followTag = "follow"
 )
 
 type logEntry struct {
@@ -157,6 +159,23 @@ func (f *fixture) enter(pl *plug, kind, tag string) error {
 			pl.armed = true
 		}
 	}
+	if ft := pl.spec.Fault; ft.UpdDuring == "handler" && tag == mainTag {
+		// an unsolicited update from inside the handler: it waits behind the request in flight
+		f.updateFrom(pl)
+		time.Sleep(2 * time.Millisecond) // let it reach the runtime before the fault strikes
+	}
+	if tag == mainTag {
+		// the healthy plugin that holds the request while another one queues an update and leaves
+		for _, s := range f.plugs {
+			if ft := s.spec.Fault; ft.Kind == "updrop" && ft.HoldIdx == pl.spec.Idx && s.proxy != nil {
+				hold := time.Duration(ft.HoldMs) * time.Millisecond
+				f.updateFrom(s)
+				time.Sleep(hold / 2)
+				s.proxy.CloseNow()
+				time.Sleep(hold - hold/2)
+			}
+		}
+	}
 	if ft := pl.spec.Fault; ft.Kind == "error" && (tag == mainTag || (tag == followTag && ft.Again)) {
 		err, _ := handlerError(ft)
 		return err
@@ -176,6 +195,16 @@ func (f *fixture) enter(pl *plug, kind, tag string) error {
 		}
 	}
 	return nil
+}
+
+// updateFrom issues an unsolicited UpdateContainers call of a plugin from a goroutine of its own
+// (answered normally by the fixture's update callback).
+func (f *fixture) updateFrom(pl *plug) {
+	f.pressWG.Add(1)
+	go func() {
+		defer f.pressWG.Done()
+		pl.p.Stub.UpdateContainers([]*api.ContainerUpdate{{ContainerId: fmt.Sprintf("during-%02d", pl.spec.Idx)}})
+	}()
 }
 
 // ---- contributions -------------------------------------------------------------------------
@@ -813,6 +842,28 @@ func validate(c C07Case) string {
 		} else if p.Fault.Kind == "exit" {
 			return "only a launched plugin can exit"
 		}
+		if p.Fault.UpdDuring != "" {
+			k := p.Fault.Kind
+			ok := k == "hang" || k == "wrongtype" || k == "undecodable" || (k == "error" && p.Fault.Then == "") ||
+				(k == "close" && p.Fault.When == "during") || (k == "cut" && p.Fault.Dir == "p2r")
+			if p.Launched || p.Fault.UpdDuring != "handler" || !ok {
+				return "an update from inside the handler needs an in-process plugin whose handler is entered"
+			}
+		}
+		if p.Fault.Kind == "updrop" {
+			if p.Launched || p.Fault.HoldMs < 1 || p.Fault.HoldMs > 250 {
+				return "updrop needs an in-process plugin and a hold of 1..250 ms"
+			}
+			okHolder := false
+			for _, h := range c.Plugins {
+				if h.Idx == p.Fault.HoldIdx && !h.Launched && h.Fault.Kind == "none" && h.Idx != p.Idx {
+					okHolder = true
+				}
+			}
+			if !okHolder {
+				return "updrop needs a healthy in-process plugin that holds the request"
+			}
+		}
 		if th := p.Fault.Then; th != "" {
 			if p.Fault.Kind != "error" && p.Fault.Kind != "leave" {
 				return "only a plugin that answers (error, leave) can leave afterwards"
@@ -1019,7 +1070,18 @@ func runOnce(c C07Case) (v verdict) {
 		case <-time.After(5 * time.Second):
 		}
 		pids := f.launchedPids()
-		rt.Stop()
+		stopDone := make(chan struct{})
+		go func() { rt.Stop(); close(stopDone) }()
+		select {
+		case <-stopDone:
+		case <-time.After(stopBound):
+			// "neither panics nor deadlocks": Stop() needs the adaptation's lock like any request
+			if v.fail == "" && v.timeFail == "" {
+				v.timeFail = fmt.Sprintf("clause 2: Adaptation.Stop() did not return within %v after the requests had completed: the adaptation's lock is held for good", stopBound)
+				v.history = map[string]any{"log": f.history(), "stacks": allStacks()}
+			}
+			v.leakedFix = true
+		}
 		pressed := make(chan struct{})
 		go func() { f.pressWG.Wait(); close(pressed) }()
 		select {
@@ -1179,6 +1241,9 @@ func runOnce(c C07Case) (v verdict) {
 		if ft.Then != "" {
 			v.classes = append(v.classes, ft.Kind+"-then-"+ft.Then, fmt.Sprintf("then-ms:%d", ft.ThenMs))
 		}
+		if ft.UpdDuring != "" {
+			v.classes = append(v.classes, "update-from-handler", "update-from-handler:"+ft.Kind)
+		}
 		if pl.spec.Big {
 			v.classes = append(v.classes, "faulty-big-response")
 		}
@@ -1312,6 +1377,8 @@ func runOnce(c C07Case) (v verdict) {
 	reached := true
 	afterVeto := ""
 	stallTotal := time.Duration(0) // time peers spent not reading before they closed
+	holdTotal := time.Duration(0)  // time healthy plugins held the request on purpose
+	var leftEarly []*plug          // answered normally, then disconnected while a later plugin held the request
 	for _, pl := range f.plugs {
 		ft := pl.spec.Fault
 		invoked := f.count(pl.spec.Idx, mainTag)
@@ -1336,7 +1403,11 @@ func runOnce(c C07Case) (v verdict) {
 				afterVeto = fmt.Sprintf("clause 5: plugin %02d was invoked although plugin %02d before it had failed the request with an error (%s)", pl.spec.Idx, vetoer.spec.Idx, errClass(vetoer.spec.Fault))
 			}
 			firedEarly := ft.Kind == "cut" && pl.rep.Fired // stopped reading over the answers to its own calls
-			if (ft.Kind == "close" && ft.When == "before") || ft.Kind == "dying" || firedEarly {
+			goneEarly := ft.Kind == "updrop" && f.count(ft.HoldIdx, mainTag) == 1
+			if goneEarly {
+				holdTotal += time.Duration(ft.HoldMs) * time.Millisecond
+			}
+			if (ft.Kind == "close" && ft.When == "before") || ft.Kind == "dying" || firedEarly || goneEarly {
 				if ft.Kind == "dying" || firedEarly {
 					pl.proxy.CloseNow() // it dies now (the incomplete frame stays incomplete)
 				}
@@ -1367,6 +1438,28 @@ func runOnce(c C07Case) (v verdict) {
 					vetoer = pl
 					reached = false
 				}
+			}
+		case "updrop":
+			// disconnected, with an update queued, while the holder held the request: behind the
+			// holder it was gone before its turn; ahead of it, it had answered normally already
+			// (the runtime had consumed the answer before it called the holder) and is gone for
+			// the follow-up
+			holderRank := -1
+			for _, h := range f.plugs {
+				if h.spec.Idx == ft.HoldIdx {
+					holderRank = h.rank
+				}
+			}
+			if f.count(ft.HoldIdx, mainTag) != 1 {
+				break // the request never got to the holder: nothing happened, an ordinary healthy plugin
+			}
+			holdTotal += time.Duration(ft.HoldMs) * time.Millisecond
+			if pl.rank > holderRank {
+				isStruck = true
+				v.classes = append(v.classes, "updrop:behind-holder")
+			} else {
+				leftEarly = append(leftEarly, pl)
+				v.classes = append(v.classes, "updrop:ahead-of-holder")
 			}
 		case "leave":
 			if invoked == 1 && ft.ThenMs < leaveGraceMs {
@@ -1442,7 +1535,7 @@ func runOnce(c C07Case) (v verdict) {
 	}
 
 	// --- overload: the time the request took beyond the timeouts it legitimately ran into
-	spent := res.dur - stallTotal
+	spent := res.dur - stallTotal - holdTotal
 	for i := 0; i < mayTime && spent >= ReqTimeout; i++ {
 		spent -= ReqTimeout
 	}
@@ -1472,7 +1565,13 @@ func runOnce(c C07Case) (v verdict) {
 			for _, e := range f.history() {
 				if e.Idx == pl.spec.Idx && e.Tag == mainTag {
 					k := pl.spec.Fault.Kind
-					marks = append(marks, mark{at: e.At, allowed: k == "hang" || (k == "garbage" && pl.rep.Consumed), must: k == "hang"})
+					m := mark{at: e.At, allowed: k == "hang" || (k == "garbage" && pl.rep.Consumed), must: k == "hang"}
+					for _, s := range f.plugs {
+						if sf := s.spec.Fault; sf.Kind == "updrop" && sf.HoldIdx == pl.spec.Idx {
+							m.stall += time.Duration(sf.HoldMs) * time.Millisecond
+						}
+					}
+					marks = append(marks, m)
 				}
 			}
 		}
@@ -1586,6 +1685,11 @@ func runOnce(c C07Case) (v verdict) {
 	for _, pl := range f.plugs {
 		ft := pl.spec.Fault
 		left := ft.Then != "" && !isStruckPl(pl) && f.count(pl.spec.Idx, mainTag) == 1 // answered, is leaving by itself
+		for _, e := range leftEarly {
+			if e == pl && !isStruckPl(pl) {
+				left = true
+			}
+		}
 		if left {
 			v.classes = append(v.classes, "left-after-answer")
 		}
@@ -1830,6 +1934,8 @@ func errFormOf(ft Fault) string {
 
 func describe(ft Fault) string {
 	switch ft.Kind {
+	case "updrop":
+		return fmt.Sprintf("queues an update and disconnects while plugin %02d holds the request for %d ms", ft.HoldIdx, ft.HoldMs)
 	case "leave":
 		return fmt.Sprintf("answers, then leaves (%s) %d ms later", ft.Then, ft.ThenMs)
 	case "exit":
